@@ -130,11 +130,26 @@ def _object_update(desc):
 
 
 _SMALL_VEC = st.tuples(*[st.sampled_from([0.0, 0.0, 1.0, 2.0, 3.5])] * 3)
+def _own_ids(t):
+    """every fourth message names the session's own agent / session in its AgentID / SessionID fields, as most real traffic does"""
+    case, flag = t
+    if flag:
+        return case
+    tmpl = gt.TEMPLATES[case["name"]]
+    blocks = []
+    for bname, insts in case["blocks"]:
+        tb = tmpl.get_block(bname)
+        uu = {v.name for v in tb.variables if v.type == gt.T.MVT_LLUUID}
+        blocks.append((bname, [{k: ("%032x" % 0x3000 if k == "AgentID" and k in uu else ("%032x" % 0x1000 if k == "SessionID" and k in uu else v))
+                                for k, v in d.items()} for d in insts]))
+    return dict(case, blocks=blocks)
+
+
 OU_ENTRY = st.fixed_dictionaries({"kind": st.just("ou"), "id": st.integers(1, 1000), "pos": _SMALL_VEC, "vel": _SMALL_VEC, "acc": _SMALL_VEC, "ang": _SMALL_VEC})
 ENTRY = st.one_of(OU_ENTRY, 
     st.fixed_dictionaries({"kind": st.sampled_from(["LLUDP", "LLUDP", "frozen", "frozen_unparsed"]), "out": st.booleans(),
-                           "case": gt.message_case(finite=True, with_header=True, omit_trailing=False).map(
-                               lambda c: dict(c, extra=b"", acks=c["acks"][:3]))}),
+                           "case": st.tuples(gt.message_case(finite=True, with_header=True, omit_trailing=False).map(
+                               lambda c: dict(c, extra=b"", acks=c["acks"][:3])), st.integers(0, 3)).map(_own_ids)}),
     st.fixed_dictionaries({"kind": st.just("EQ"), "name": st.sampled_from(["EnableSimulator", "ParcelProperties", "AgentGroupDataUpdate", "FooEvent"]),
                            "body": st.dictionaries(st.sampled_from(["a", "b", "Flags"]), st.one_of(st.integers(0, 100), st.text(max_size=5)), max_size=3)}),
     st.fixed_dictionaries({"kind": st.just("HTTP"), "method": st.sampled_from(["GET", "POST", "PUT"]), "path": st.sampled_from(["/x", "/cap/1", "/"]),
@@ -235,7 +250,9 @@ def leaf_for(draw, edesc):
         # enum / Meta right-hand sides
         rhs = draw(st.sampled_from([("enum", "ChatType", "NORMAL"), ("enum", "PCode", "AVATAR"), ("meta", "AgentID"), ("meta", "AgentLocal"), ("meta", "Type")]))
         sel = _pick_selector(draw, name, blocks)
-        op = draw(st.sampled_from(["==", "!=", "<", "&", "^="]))
+        if rhs == ("meta", "AgentID") and draw(st.booleans()):
+            sel = (sel[0], "*", draw(st.sampled_from(["AgentID", "*ID", "SessionID"])))      # "is this about me?"
+        op = draw(st.sampled_from(["==", "!=", "<", "&", "^=", "==", "!="]))
         text = "%s.%s" % (rhs[1], rhs[2]) if rhs[0] == "enum" else "Meta.%s" % rhs[1]
         return ("cmp", sel, op, text, rhs)
     if choice == 4 and kind in ("LLUDP", "frozen", "frozen_unparsed"):
@@ -391,11 +408,18 @@ def ref_leaf_truth(entry, leaf):
         if leaf[0] == "cmp" and isinstance(leaf[4], tuple) and leaf[4] and leaf[4][0] in ("enum", "meta"):
             return None
         return _ref_sub_truth(entry, leaf)
-    if leaf[0] != "cmp" or len(leaf[1]) != 3 or leaf[1][0] == "Meta" or (isinstance(leaf[4], tuple) and leaf[4] and leaf[4][0] in ("enum", "meta")):
+    meta_rhs = None
+    if leaf[0] == "cmp" and len(leaf[1]) == 3 and leaf[1][0] != "Meta" and isinstance(leaf[4], tuple) and leaf[4] and leaf[4][0] == "meta" \
+            and leaf[4][1] in ("AgentID", "Type") and entry.type == "LLUDP":
+        # a Meta specifier on the right-hand side stands for that meta value of the entry (identifiers in their text form, like the field)
+        meta_rhs = str(entry.agent_id) if leaf[4][1] == "AgentID" else entry.type
+        if leaf[4][1] == "AgentID" and entry.agent_id is None:
+            return None
+    elif leaf[0] != "cmp" or len(leaf[1]) != 3 or leaf[1][0] == "Meta" or (isinstance(leaf[4], tuple) and leaf[4] and leaf[4][0] in ("enum", "meta")):
         return None
     if entry.type != "LLUDP":
         return None
-    sel, op, expected = leaf[1], leaf[2], leaf[4]
+    sel, op, expected = leaf[1], leaf[2], (meta_rhs if meta_rhs is not None else leaf[4])
     if not (fnmatch.fnmatchcase(entry.name, sel[0]) or fnmatch.fnmatchcase("LLUDP", sel[0])):
         return False
     msg = entry.message
